@@ -25,3 +25,33 @@ package rpm
 //@   ensures [C02 C14 C15] shape: result == rpmVersion(old(info.Version), old(info.Prerelease), old(info.VersionMetadata))
 //@   ensures [C14] no-hyphen-in-prerelease: implies(old(info.VersionMetadata) == "" && !strings.Contains(old(info.Version), "-"), !strings.Contains(result, "-"))
 //@   modifies [C11 C12]
+//
+//@ import "io"
+//@ import "github.com/google/rpmpack"
+//
+//@ func (r *RPM) Package(info *nfpm.Info, w io.Writer) (err error)
+//@   requires info != nil
+//@   requires !flag("failed") && !flag("clockRead") && !flag("envRead")
+//@   ensures [C06] loud: implies(err == nil, !flag("failed"))
+//@   ensures [C07] no-clock: implies(!old(info.MTime.IsZero()), !flag("clockRead"))
+//@   ensures [C07] no-env: implies(old(info.RPM.BuildHost) != "", !flag("envRead"))
+//@   modifies [C11 C12] &info.Arch, &info.Release, &info.Contents, &info.RPM.Compression
+//
+//@ inline func createFilesInsideRPM(info *nfpm.Info, rpm *rpmpack.RPM) (err error)
+//@   loop 0
+//@     invariant [C06] no-failure-so-far: !flag("failed")
+//@     invariant [C07] no-clock-so-far: implies(!old(info.MTime.IsZero()), !flag("clockRead"))
+//@     invariant [C11 C12] plan-still-fresh: nfpm.SpecPlanOK(info.Contents, !old(info.MTime.IsZero()))
+//
+//@ inline func toRelation(items []string) (rel rpmpack.Relations, err error)
+//@   loop 0
+//@     invariant true
+//
+//@ inline func addChangeLog(info *nfpm.Info, rpm *rpmpack.RPM) (err error)
+//@   loop 0
+//@     invariant [C06] no-failure-so-far: !flag("failed")
+//
+//@ import "github.com/goreleaser/nfpm/v2/files"
+//
+//@ inline func asRPMFile(content *files.Content, fileType rpmpack.FileType) (file *rpmpack.RPMFile, err error)
+//@   assume [C06 C08] ghost-source-is-optional: implies(content.Type == "ghost", ufBool("fsOptional", content.Source))
